@@ -1,6 +1,14 @@
+// Command c11 decides property C11 (concurrent HTTP requests do not interfere) on the real
+// std/net/http code: a script registers handlers and middlewares on script-created
+// Net\Http\Server objects, the harness takes their ServeMux and serves httptest requests
+// in-process — many at once (seeded load, plain and -race builds), in scripted two-request
+// interleavings (a handler parked at a gate while another request runs to completion) and
+// one after the other — and compares every answer with the answer the same request gets
+// alone on a fresh server.
 package main
 
 import (
+	"encoding/json"
 	"fmt"
 	"io"
 	"net/http/httptest"
@@ -9,13 +17,68 @@ import (
 )
 
 func main() {
-	if len(os.Args) > 1 && os.Args[1] == "script" {
+	switch {
+	case len(os.Args) > 4 && os.Args[1] == "worker":
+		workerMain(os.Args[2], os.Args[3], os.Args[4])
+	case len(os.Args) > 2 && os.Args[1] == "replay":
+		replay(os.Args[2])
+	case len(os.Args) > 5 && os.Args[1] == "script":
 		probeScript(os.Args[2:])
-		return
+	case len(os.Args) > 2 && os.Args[1] == "cells":
+		devCells(os.Args[2])
+	case len(os.Args) > 1 && os.Args[1] == "dump-script":
+		fmt.Print(handlerScript())
+	default:
+		drive()
 	}
 }
 
-// c11 script file.php server METHOD url [body] [Header: v]...
+// replay re-runs the case of a replay file in this process and prints what it finds.
+func replay(path string) {
+	b, err := os.ReadFile(path)
+	if err != nil {
+		fmt.Println(err)
+		os.Exit(2)
+	}
+	var f struct {
+		Job job `json:"job"`
+	}
+	if i := strings.Index(string(b), "{\"kind\""); i > 0 && json.Unmarshal(b, &f) != nil {
+		_ = json.Unmarshal(b[i:], &f.Job) // race replay: the job follows the report text
+	} else {
+		_ = json.Unmarshal(b, &f)
+	}
+	j := f.Job
+	n := 0
+	for i, name := range j.caseNames() {
+		var mism []mismatch
+		switch j.Kind {
+		case "load":
+			r := runRound(j.Rounds[i])
+			mism = r.Mism
+			fmt.Printf("%s: %d requests in flight, %d compared, fatal=%q not-compared=%v\n", name, len(j.Rounds[i].Reqs), r.Requests, r.Fatal, r.BaselineBad)
+		case "gate":
+			r := runGateCell(j.Gates[i], j.Base+i)
+			mism = r.Mism
+			fmt.Printf("%s: parked=%v nontrivial=%v %s %s\n", name, r.Parked, r.Nontrivial, r.Note, r.Fatal)
+		case "seq":
+			r := runSeqCell(j.Seqs[i], j.Base+i)
+			mism = r.Mism
+			fmt.Printf("%s: nontrivial=%v %s\n", name, r.Nontrivial, r.Fatal)
+		case "lgate":
+			r := runLocalCell(j.Locals[i], j.Base+i)
+			mism = r.Mism
+			fmt.Printf("%s: parked=%v nontrivial=%v %s %s\n", name, r.Parked, r.Nontrivial, r.Note, r.Fatal)
+		}
+		for _, m := range mism {
+			n++
+			fmt.Printf("  MISMATCH %s :: %s\n", m.Key, m.What)
+		}
+	}
+	fmt.Printf("%d mismatches (a load round depends on the schedule: repeat it, or use .build/c11-race)\n", n)
+}
+
+// probeScript is a development aid: c11 script file.php server METHOD url [body] [Header: v]...
 func probeScript(args []string) {
 	w, err := newWorld()
 	if err != nil {
@@ -50,10 +113,44 @@ func probeScript(args []string) {
 	func() {
 		defer func() {
 			if r := recover(); r != nil {
-				fmt.Printf("PANIC: %v\n", r)
+				fmt.Printf("ESCAPED: %s\n", describeEscape(r))
 			}
 		}()
 		h.ServeHTTP(rec, req)
 	}()
 	fmt.Printf("status=%d\nheaders=%v\nbody=%s\nnotes=%v\n", rec.Code, rec.Header(), rec.Body.String(), w.notes)
+}
+
+// devCells is a development aid: c11 cells gate|seq|lgate runs every cell of a family in
+// this process and prints the cells that disagree.
+func devCells(kind string) {
+	var j job
+	switch kind {
+	case "gate":
+		j = job{Kind: "gate", Gates: allGateCells()}
+	case "seq":
+		j = job{Kind: "seq", Seqs: allSeqCells()}
+	default:
+		j = job{Kind: "lgate", Locals: allLocalCells()}
+	}
+	bad := 0
+	for i, name := range j.caseNames() {
+		var r cellResult
+		switch j.Kind {
+		case "gate":
+			r = runGateCell(j.Gates[i], i)
+		case "seq":
+			r = runSeqCell(j.Seqs[i], i)
+		default:
+			r = runLocalCell(j.Locals[i], i)
+		}
+		if r.Fatal != "" || r.Note != "" || !r.Parked || !r.Nontrivial {
+			fmt.Printf("%s: parked=%v nontrivial=%v note=%q fatal=%q sample=%s\n", name, r.Parked, r.Nontrivial, r.Note, r.Fatal, r.Sample)
+		}
+		for _, m := range r.Mism {
+			bad++
+			fmt.Printf("MISMATCH %s :: %s\n", m.Key, m.What)
+		}
+	}
+	fmt.Printf("%d cells, %d mismatches\n", len(j.caseNames()), bad)
 }
